@@ -63,6 +63,16 @@ def cls_key(c: dict) -> dict:
     return {"id": c["id"], "kind": c["kind"], "hashable": c["hashable"], "slots": c["slots"]}
 
 
+CLASS_TABLE: Dict[int, dict] = {}
+
+
+def set_classes(classes: List[dict]) -> None:
+    """full class descriptors (fields, defaults, base) of the current case, by class id"""
+    CLASS_TABLE.clear()
+    for c in classes:
+        CLASS_TABLE[c["id"]] = c
+
+
 def get_class(ctx: Ctx, c: dict) -> type:
     """build (once per case) the Python class for a class descriptor.
 
@@ -72,6 +82,7 @@ def get_class(ctx: Ctx, c: dict) -> type:
     cid = c["id"]
     if cid in ctx.cls_by_id:
         return ctx.cls_by_id[cid]
+    c = CLASS_TABLE.get(cid, c)
     kind = c["kind"]
     fields = c.get("fields", [])
     name = f"C{cid}"
